@@ -19,7 +19,10 @@ def guards(ctx):
     from vlib.fsmt.solve import check, model_value2  # pylint: disable=import-outside-toplevel
     for c in cases():
         p = Prog.from_source(c.src, c.entry)
-        q = c.apply(p)
+        try:
+            q = c.apply(p)
+        except AssertionError:
+            continue        # already reported by the equivalence pass (raise_is_violation)
         fixed = {k: v for k, v in c.sizes[0].items() if k.startswith('parametrised_')}
         sizes = {k: v for k, v in c.sizes[0].items() if not k.startswith('parametrised_')}
         sem = Sem('real')
